@@ -391,3 +391,37 @@ PROPS["C04"] = {
     "assumptions": ["default rounding mode"],
     "not_covered": [],
 }
+
+
+# ------------------------------------------------------------------ C08
+def binio_cells(tier):
+    cells = []
+    for fl in ("debug", "ndebug"):
+        for t in ("u32", "u64", "f32", "f64"):
+            cells.append(Cell("io.read_binary.%s.%s" % (t, fl), "binary_io", "h_read_binary_%s" % t, enforce="read_binary_%s" % t,
+                              flavour=fl, closes_loops="loop-free", replay="binary_io", trace_extra=("rv",),
+                              defines={"VERIF_REPLAY_FN": {"u32": 0, "u64": 1, "f32": 2, "f64": 3}[t]}))
+        for nm in ("read_io_header", "read_io_footer"):
+            cells.append(Cell("io.%s.%s" % (nm, fl), "binary_io", "h_%s" % nm, enforce=nm, replace=["read_binary_u32"],
+                              flavour=fl, closes_loops="loop-free", replay="binary_io", trace_extra=("hdr1", "hdr2", "ftr1", "ftr2"),
+                              defines={"VERIF_REPLAY_FN": 10 if nm == "read_io_header" else 11}))
+    for nm in ("write_io_header", "write_io_footer"):
+        cells.append(Cell("io.%s" % nm, "binary_io", "h_%s" % nm, enforce=nm, closes_loops="loop-free", replay=None))
+    cells.append(Cell("io.constants", "binary_io", "h_io_constants", closes_loops="loop-free"))
+    return cells
+
+
+def cells_C08(tier, consts):
+    return binio_cells(tier)
+
+
+PROPS["C08"] = {
+    "level_text": "read_binary<T> (uint32_t, uint64_t, float, double), read_io_header and read_io_footer proved against 'throws iff fewer bytes than needed are available / magic or tag differ; the value returned is the bytes read' for every stream content, length and position",
+    "level_note": "std::istream modelled by the ghost byte-stream contract of stubs/stream.h; exception propagation modelled by rule R14",
+    "design_ref": "DESIGN.md section 5 (C06/C07/C08)",
+    "cells": cells_C08, "consts": True,
+    "explanation": "binary IO primitives extracted and verified over a ghost byte stream",
+    "trusted_base": ["ghost stream model of std::istream::read / std::ostream::write (stubs/stream.h)"],
+    "assumptions": ["the stream handed to the reader is initially good()"],
+    "not_covered": [],
+}
